@@ -5,6 +5,7 @@
 From Coq Require Import Arith List Permutation Reals QArith Qcanon.
 From GPV Require Import Base.LinAlg Base.Exec Base.Expr Models.C01_posterior Models.C02_mll Proofs.C02_mll.
 From GPV Require Import Models.C02_priors Proofs.C02_priors.
+From GPV Require Import Base.Det Proofs.C02_det.
 Import ListNotations.
 
 (* LOO: for EVERY size n = k+1 and EVERY index i, the code's sigma_i^2 = 1/[A^-1]_ii and
@@ -52,6 +53,47 @@ Theorem c02_quad_chain_rule_partial :
                  (cond_var k i A Binv)).
 Proof. intros K. exact (@quad_chain_rule_loo K). Qed.
 Print Assumptions c02_quad_chain_rule_partial.
+
+(* FULL version (Base/Det.v: the Laplace determinant of the model is multiplicative, and the cofactor of the
+   (i,i) entry is [A^-1]_ii det A): both halves of the chain rule, every n, every i --
+   the quadratic form splits as above AND  det A = det A[-i,-i] * sigma_i^2  (no symmetry needed for the
+   determinant half) *)
+Theorem c02_quad_chain_rule :
+  forall (K : Fld) k i (A Ainv Binv y m : M), (i <= k)%nat -> symmetric (S k) A ->
+    is_inverse (S k) A Ainv -> is_inverse k (del i A) Binv ->
+    quadf (S k) Ainv (msub y m)
+    = fadd (quadf k Binv (vdel i (msub y m)))
+           (fdiv (fmul (fsub (y i O) (cond_mean k i A Binv y m)) (fsub (y i O) (cond_mean k i A Binv y m)))
+                 (cond_var k i A Binv))
+    /\ det (S k) A = fmul (det k (del i A)) (cond_var k i A Binv).
+Proof. intros K. exact (@chain_rule_loo_full K). Qed.
+Print Assumptions c02_quad_chain_rule.
+
+Theorem c02_det_chain_rule :
+  forall (K : Fld) k i (A Ainv Binv : M), (i <= k)%nat ->
+    is_inverse (S k) A Ainv -> is_inverse k (del i A) Binv ->
+    det (S k) A = fmul (det k (del i A)) (cond_var k i A Binv).
+Proof. intros K. exact (@det_chain_rule_loo K). Qed.
+Print Assumptions c02_det_chain_rule.
+
+(* ... hence over R, with logN(n, q, d) = -1/2 (q + ln d + n ln 2 pi) (what the printed log-density term
+   denotes, c02_printed_logN_denotes):  log p(y) = log p(y_-i) + log N(y_i; mu_i, sigma_i^2) *)
+Theorem c02_density_chain_rule :
+  forall k i (A Ainv Binv y m : @M RF), (i <= k)%nat ->
+    symmetric (S k) A -> is_inverse (S k) A Ainv -> is_inverse k (del i A) Binv ->
+    (0 < det k (del i A))%R -> (0 < cond_var k i A Binv)%R ->
+    (0 < det (S k) A)%R /\
+    (logNR (S k) (quadf (S k) Ainv (msub y m)) (det (S k) A)
+     = logNR k (quadf k Binv (vdel i (msub y m))) (det k (del i A))
+       + logN1 (y i O) (cond_mean k i A Binv y m) (cond_var k i A Binv))%R.
+Proof. exact density_chain_rule_loo. Qed.
+Print Assumptions c02_density_chain_rule.
+
+Example ex_c02_density_chain_rule_hypotheses :
+  symmetric 2 exR_A /\ is_inverse 2 exR_A exR_Ainv /\ is_inverse 1 (del 1 exR_A) (fun _ _ => (/ 2)%R)
+  /\ (0 < det 1 (del 1 exR_A))%R /\ (0 < cond_var 1 1 exR_A (fun _ _ => (/ 2)%R))%R.
+Proof. exact ex_density_chain_hyps. Qed.
+Print Assumptions ex_c02_density_chain_rule_hypotheses.
 
 (* the LOO objective as coded = mean over i of log N(y_i; mu_i, sigma_i^2) + (priors+added)/n *)
 Theorem c02_loo_objective_is_mean_predictive_logdensity :
